@@ -39,6 +39,8 @@ type c20Obs struct {
 	live        int // harness threads still running
 	tornDown    bool
 	finalBefore string // readyState when the harness threads were done, before the teardown closed the connection
+	lateOpens   int    // runs of an OnOpen handler registered after the channel was created (one registration)
+	lateCloses  int    // same for OnClose
 }
 
 // env starts an environment thread: it waits for cond (or for the teardown) and then performs the event.
@@ -87,6 +89,8 @@ var c20Names = []string{
 	"remote-open||Close+peerreset",
 	"open:peerreset||Send",
 	"connect||pcClose",
+	"late:OnOpen||ack",
+	"late:OnClose||Close+peerreset",
 }
 
 func c20Body(t *testing.T, name string) (func(), *c20Obs) {
@@ -111,6 +115,13 @@ func c20Body(t *testing.T, name string) (func(), *c20Obs) {
 			o.remote = rd
 			c20Watch(o, rd, &o.rstates, &o.ropens, &o.rcloses)
 		})
+		if strings.HasPrefix(name, "late:") {
+			// a channel created on a connection whose SCTP association is already up: DATA_CHANNEL_OPEN goes
+			// out at once and the channel is open before the peer's ACK has been processed
+			if err := vfConnectSCTP(x); err != nil {
+				vkit.Fatalf(t, "connect: %v", err)
+			}
+		}
 		preOpen := strings.HasPrefix(name, "open:")
 		if preOpen || strings.HasPrefix(name, "remote-open") {
 			if err := vfConnectSCTP(x); err != nil {
@@ -203,6 +214,15 @@ func c20Body(t *testing.T, name string) (func(), *c20Obs) {
 		case "open:peerreset||Send":
 			o.env("env-peerclose", func() bool { return true }, func() { vfFakeRaw(d).EnvPeerReset() })
 			send(d)
+		case "late:OnOpen||ack":
+			// one registration made after the channel exists, racing with the peer's ACK
+			o.goT("register", func() { d.OnOpen(func() { vsched.Yield("user-handler"); o.lateOpens++ }) })
+			o.env("env-ack", func() bool { return vfFakeRaw(d) != nil }, func() { vfFakeRaw(d).EnvAckOpen() })
+		case "late:OnClose||Close+peerreset":
+			o.env("env-ack", func() bool { return vfFakeRaw(d) != nil }, func() { vfFakeRaw(d).EnvAckOpen() })
+			o.goT("register", func() { d.OnClose(func() { vsched.Yield("user-handler"); o.lateCloses++ }) })
+			closeT("closer", d, false)
+			peerResetAfterClose(d)
 		case "connect||pcClose":
 			o.goT("connect", func() {
 				if err := vfConnectSCTP(x); err != nil {
@@ -273,6 +293,12 @@ func c20Judge(name string, o *c20Obs, r *vsched.Result) (string, string) {
 	}
 	if k, w := check("remote", o.rstates, o.ropens, o.rcloses); k != "" {
 		return k, w
+	}
+	if o.lateOpens > 1 {
+		return "onopen-twice|late-registration", fmt.Sprintf("scenario %s: an OnOpen handler registered once, after the channel was created, ran %d times", name, o.lateOpens)
+	}
+	if o.lateCloses > 1 {
+		return "onclose-twice|late-registration", fmt.Sprintf("scenario %s: an OnClose handler registered once, after the channel was created, ran %d times", name, o.lateCloses)
 	}
 	for _, s := range o.sendOK {
 		// Send returned nil: the channel must have been open at some point during the call
